@@ -576,7 +576,8 @@ def finite_like(got, ref):
 
 
 def half_precision_refine(chk, I, fn, got, ref32, agrees, bound_oracle, small, p):
-    """EXCLUDED REGION / finding F-C06half (C07: same entry): integral refinement of a float16 / bfloat16 map.  `ref32` is the
+    """Finding F-C06half (fixed in 327aafb: crop_bboxes crops half-precision maps in float32; this is its regression check, the
+    signature is no longer suppressed): integral refinement of a float16 / bfloat16 map.  `ref32` is the
     answer of the same function on the identical values passed as float32 (already compared with the model and judged by the
     oracles).  Effect-based signature `half_precision_crop`: the half-precision call raises, returns non-finite points or
     points that differ from `ref32` beyond the half-precision tolerance — i.e. the failure disappears when the same values
@@ -592,10 +593,9 @@ def half_precision_refine(chk, I, fn, got, ref32, agrees, bound_oracle, small, p
 
 
 def half_refine_probe(chk, torch, fn, name):
-    """OUT OF DOMAIN, recorded not judged: integral refinement of float16 / bfloat16 maps on the tree under test.
-    kornia's crop_and_resize builds and inverts the perspective transform in the map's dtype: on the unchanged tree it raises
-    `_LinAlgError` for many shapes and returns NaN / half-pixel-off points for large maps.  The outcome classes are written
-    to the evidence (`out_of_domain`), they never influence the verdict."""
+    """Recorded, not judged (the verdict comes from half_precision_refine): outcome classes of integral refinement of float16 /
+    bfloat16 one-hot maps on the tree under test.  Before 327aafb kornia's crop_and_resize built the perspective transform in the
+    map's dtype (`_LinAlgError` for many shapes, NaN for large maps); since the fix every entry should be `ok`."""
     out = {}
     for dt in ("float16", "bfloat16"):
         for (h, w) in ((1, 1), (2, 1), (5, 5), (9, 9), (3, 300), (300, 300)):
@@ -959,11 +959,12 @@ if __name__ == "__main__":
             "dtypes: maps in float64 / float32 / float16 / bfloat16; the model is dtype-agnostic (runs on the exact values): "
             "comparisons are exact in the map's own dtype, coordinates are float32 integers, values keep the map's dtype — "
             "checked exactly for the rough detector in all four dtypes; thresholds are dyadic except 0.2 with float32 maps",
-            "EXCLUDED REGION (finding F-C06half, repair offered in fixes/C07-half-precision-crop.patch): integral refinement of float16/bfloat16 "
-            "maps. ~60 % of the half-precision cases keep their patch size: correspondence and oracles run on the identical values as "
-            "float32, then the half-precision call is compared with that answer peak by peak (half-precision tolerance, knife-edges "
-            "skipped); a raise / NaN / discrepancy carries the effect-based signature half_precision_crop. The fixed outcome probe "
-            "stays in evidence.out_of_domain",
+            "half-precision maps + integral refinement: since 327aafb crop_bboxes crops float16/bfloat16 maps in float32 (finding F-C06half, "
+            "FIXED; pre-fix behaviour = regression record, witness replayed every run). ~60 % of the half-precision cases keep their patch "
+            "size: correspondence and oracles run on the identical values as float32, then the half-precision call must agree with that "
+            "answer peak by peak (half-precision tolerance; knife-edges skipped); a raise / NaN / discrepancy is a violation",
+            "flat-index arithmetic: find_local_peaks_rough takes its subscripts from torch.where (int64 per-dimension indices), there is no "
+            "flat index to unravel, so the > 2^24-cell family lives in C07 only",
             "refinement bound is proved for non-negative patches with positive sum only (F-C06); negative patches are sampled "
             "every run with the property oracle (excluded_region_cases) — search, not proof",
         ],
